@@ -181,7 +181,7 @@ MODEL = parse_script(SRC)
 LIB_ARRAY_LENGTH = SCRIPT_FUNCTIONS['arrayLength']
 
 
-def core_host(host_len, host_abs, host_ff, nn):
+def core_host(host_len, host_abs, host_ff, nn, host_none=False):
     def my_len(args, options):
         return 99
 
@@ -197,8 +197,12 @@ def core_host(host_len, host_abs, host_ff, nn):
         g['abs'] = my_abs
     if host_ff:
         g['ff'] = my_ff
+    if host_none:
+        g['arrayPop'] = None              # a name the caller supplies as null (e.g. to disable a library function)
     opts = {{'globals': g}}
     execute_script(MODEL, opts)
+    if host_none and ('arrayPop' not in g or g['arrayPop'] is not None):
+        return False, {{'clause': 'library injection overwrote a caller-supplied name (bound to null)', 'source': SRC}}
     info = {{'source': SRC, 'host_len': host_len, 'host_abs': host_abs, 'host_ff': host_ff, 'nn': nn}}
     # library injected without overwriting a supplied name
     if host_len and g['arrayLength'] is not my_len:
@@ -259,7 +263,7 @@ def plan(tier, seed, workdir):
         path = hgen.write_module(workdir, f'c04_scope_{name}', body)
         hgen.ch_tasks(p, path, 'scope', timeout, family='locals vs globals', program=name, source=src)
     body = CORE_HOST.format(src=HOST_SRC)
-    body += hgen.harness('host', 'host_len: bool, host_abs: bool, host_ff: bool, nn: int', [], core_call='core_host(host_len, host_abs, host_ff, nn)')
+    body += hgen.harness('host', 'host_len: bool, host_abs: bool, host_ff: bool, nn: int, host_none: bool', [], core_call='core_host(host_len, host_abs, host_ff, nn, host_none)')
     path = hgen.write_module(workdir, 'c04_host', body)
     hgen.ch_tasks(p, path, 'host', timeout, family='host globals / library / built-ins', source=HOST_SRC)
     p.rule = ('one CrossHair condition per (parameter count, last-arg-array) with a symbolic argument list, per scoping program with symbolic '
